@@ -139,6 +139,8 @@ func (t *tr) stmt(s ast.Stmt, e *env, k cont) []string {
 			return t.stmt(n.Init, e, func(e2 *env) []string { return t.forLoop(n, e2, k) })
 		}
 		return t.forLoop(n, e, k)
+	case *ast.RangeStmt:
+		return t.rangeLoop(n, e, k)
 	case *ast.BranchStmt:
 		if n.Label != nil || t.inLoop == nil {
 			t.fail(s, "unsupported branch statement")
